@@ -351,7 +351,7 @@ func report(prop, tier string, seed int, ip *InvProp, res *checkResult, partial 
 		if ef.Covers > 0 {
 			ok := 0
 			for _, ob := range vc.obligs {
-				if ob.IsCover && ob.Status == "proved" {
+				if ob.IsCover && strings.HasPrefix(ob.Desc, "return") && ob.Status != "refuted" {
 					ok++
 				}
 			}
